@@ -1787,3 +1787,68 @@ theorem laws (chk : Nat → Nat → Bool) : (mach chk).Laws chk (Ok chk) False w
   global := fun h => h.elim
 
 end Woodpile.Abt.RA
+
+namespace Woodpile.Abt.RA
+
+/-- The accept direction: when `advance_once` compares (at `aB`) and the argument's base time is
+not older than the most recently published one, the call is not ignored: it goes on to the
+slot stores if the pair is valid (to the panic path otherwise), whatever message it read. -/
+theorem fresh_accepted {chk : Nat → Nat → Bool} {s s' : State} (hI : Inv chk s) (t ts : Nat)
+    (hpc : (s.thr t).loc.pc = .aB)
+    (cur : Nat × Nat) (hcur : s.hist.getLast? = some cur) (hfresh : cur.1 ≤ (s.thr t).loc.ub)
+    (hs : step chk s (.run t ts) = some s') :
+    (s'.thr t).loc.pc = (if chk (s.thr t).loc.ub (s.thr t).loc.uv then .aStB else .aUnlockPanic) ∧
+    s'.mem = s.mem ∧ s'.hist = s.hist := by
+  simp only [step, Local.next, hpc] at hs
+  cases hm : (s.mem (.b (odd (s.thr t).loc.sq)))[ts]? with
+  | none => simp [hm] at hs
+  | some m =>
+    simp only [hm] at hs
+    split at hs
+    · rename_i hv
+      simp at hs; subst hs
+      obtain ⟨p, _, hp2, hp3⟩ := aB_reads_current hI t ts m hpc hm hv
+      rw [hcur] at hp3; cases hp3
+      have : ¬ (s.thr t).loc.ub < m.val := by omega
+      by_cases h2 : chk (s.thr t).loc.ub (s.thr t).loc.uv = true <;> simp [Local.feedLoad, hpc, this, h2]
+    · simp at hs
+
+/-- Once accepted (`aStB`), the call's remaining four steps - two slot stores, the sequence
+store, the guard drop - are enabled in every state, and when the thread takes them (others may
+be anywhere; nobody else can append while it holds the lock - here it runs alone) it returns
+`true` with exactly its pair appended to the history. -/
+theorem accepted_completes (chk : Nat → Nat → Bool) (s : State) (t : Nat) (hpc : (s.thr t).loc.pc = .aStB) :
+    ∃ s', run chk s (List.replicate 4 (.run t 0)) = some s' ∧ (s'.thr t).loc.pc = .retBool true ∧
+      s'.hist = s.hist ++ [((s.thr t).loc.ub, (s.thr t).loc.uv)] ∧ s'.held = none := by
+  simp [List.replicate, run, step, Local.next, Local.feedUnit, hpc, upd_same]
+
+
+theorem mach_run (chk : Nat → Nat → Bool) (ls : List Label) : ∀ s : State, (mach chk).run s ls = run chk s ls := by
+  induction ls with
+  | nil => intro s; rfl
+  | cons l ls ih =>
+    intro s
+    simp only [run, Mach.run]
+    cases step chk s l with
+    | none => rfl
+    | some s1 => exact ih s1
+
+/-- The bookkeeping invariant holds in every reachable state of the bookkeeping machine. -/
+theorem ginv_reachable {chk : Nat → Nat → Bool} {v0 : Nat} (h0 : chk 0 v0 = true) {g : (mach chk).GState}
+    (h : GReachable chk v0 g) : (mach chk).GInv chk (Ok chk) False g := by
+  obtain ⟨ls, hls⟩ := h
+  exact Mach.ginv_run (laws chk) ls _ _ (Mach.ginv_init (ok_init chk v0 h0) (fun _ => rfl)) hls
+
+/-- The bookkeeping restricts nothing: the machine states it reaches are exactly the reachable ones. -/
+theorem greachable_iff (chk : Nat → Nat → Bool) (v0 : Nat) (s : State) :
+    Reachable chk v0 s ↔ ∃ g : (mach chk).GState, GReachable chk v0 g ∧ g.s = s := by
+  constructor
+  · rintro ⟨ls, hls⟩
+    obtain ⟨g', h1, h2⟩ := Mach.grun_lift (mach chk) ls ((mach chk).ginit (init v0)) s
+      ((mach_run chk ls (init v0)).trans hls)
+    exact ⟨g', ⟨ls, h1⟩, h2⟩
+  · rintro ⟨g, ⟨ls, hls⟩, rfl⟩
+    have := Mach.grun_erase (mach chk) ls _ g hls
+    exact ⟨ls, (mach_run chk ls (init v0)).symm.trans this⟩
+
+end Woodpile.Abt.RA
